@@ -3,6 +3,7 @@
   flexible_addsub (Props/C06.lean, second part).
 -/
 import NiftyVerif.Lemmas.Field
+import Mathlib.Algebra.Order.Field.Basic
 
 namespace NiftyVerif.FieldM
 
@@ -57,6 +58,190 @@ theorem sVdotLeaves_spec [CommRing K] (conj : K → K) :
       · simp only [ne_eq, hd, not_false_eq_true, if_true] at h
         cases h
 
+theorem leaf_vd_lin_left [CommRing K] (conj : K →+* K) (α : K) (sz : List Nat) (x y z : Idx → K) :
+    sumOver (allIdx sz) (fun i => conj (α * x i + y i) * z i)
+      = conj α * sumOver (allIdx sz) (fun i => conj (x i) * z i) + sumOver (allIdx sz) (fun i => conj (y i) * z i) := by
+  rw [← sumOver_mul_left, ← sumOver_add]
+  apply sumOver_congr
+  intro i _
+  simp only [map_add, map_mul]
+  ring
+
+theorem leaf_vd_lin_right [CommRing K] (conj : K →+* K) (α : K) (sz : List Nat) (x y z : Idx → K) :
+    sumOver (allIdx sz) (fun i => conj (z i) * (α * x i + y i))
+      = α * sumOver (allIdx sz) (fun i => conj (z i) * x i) + sumOver (allIdx sz) (fun i => conj (z i) * y i) := by
+  rw [← sumOver_mul_left, ← sumOver_add]
+  apply sumOver_congr
+  intro i _
+  ring
+
 end Entries
+
+/-! ### flexible_addsub: the dictionary loop, key by key -/
+section Flex
+variable {K : Type}
+
+theorem lookupLeaf_cons (k q : String) (v : Fld K) (t : List (String × Fld K)) :
+    lookupLeaf q ((k, v) :: t) = if k = q then some v else lookupLeaf q t := by
+  by_cases h : k = q <;> simp [lookupLeaf, List.find?_cons, h]
+
+theorem lookupLeaf_none_of_not_mem (q : String) :
+    ∀ (l : List (String × Fld K)), q ∉ l.map (·.1) → lookupLeaf q l = none := by
+  intro l
+  induction l with
+  | nil => intro _; rfl
+  | cons kv t ih =>
+    intro h
+    obtain ⟨k, v⟩ := kv
+    simp only [List.map_cons, List.mem_cons, not_or] at h
+    rw [lookupLeaf_cons, if_neg (fun e => h.1 e.symm)]
+    exact ih h.2
+
+theorem lookupLeaf_insert (k q : String) (v : Fld K) :
+    ∀ (l : List (String × Fld K)), lookupLeaf k l = none →
+      lookupLeaf q (insertLeaf (k, v) l) = if k = q then some v else lookupLeaf q l := by
+  intro l
+  induction l with
+  | nil => intro _; simp [insertLeaf, lookupLeaf_cons, lookupLeaf]
+  | cons h t ih =>
+    intro hn
+    obtain ⟨hk, hv⟩ := h
+    rw [lookupLeaf_cons] at hn
+    have hne : hk ≠ k := by
+      intro e; simp [e] at hn
+    rw [if_neg hne] at hn
+    simp only [insertLeaf]
+    split
+    · rw [lookupLeaf_cons]
+    · rw [lookupLeaf_cons, ih hn, lookupLeaf_cons]
+      by_cases h1 : hk = q
+      · have : k ≠ q := fun e => hne (h1.trans e.symm)
+        simp [h1, this]
+      · simp [h1]
+
+theorem lookupLeaf_replace (k q : String) (n : Fld K) :
+    ∀ (l : List (String × Fld K)),
+      lookupLeaf q (l.map fun kv => if kv.1 == k then (k, n) else kv)
+        = if k = q then (lookupLeaf k l).map (fun _ => n) else lookupLeaf q l := by
+  intro l
+  induction l with
+  | nil => simp [lookupLeaf]
+  | cons h t ih =>
+    obtain ⟨hk, hv⟩ := h
+    simp only [List.map_cons]
+    by_cases h1 : hk = k
+    · have hb : (hk == k) = true := by simpa using h1
+      simp only [hb, if_true, lookupLeaf_cons, ih]
+      by_cases h2 : k = q
+      · simp [h1, h2]
+      · have h3 : ¬ hk = q := fun e => h2 (h1.symm.trans e)
+        simp [h2, h3]
+    · have hb : (hk == k) = false := by simpa using h1
+      simp only [hb, Bool.false_eq_true, if_false, lookupLeaf_cons, ih]
+      by_cases h2 : k = q
+      · have h3 : ¬ hk = q := fun e => h1 (e.trans h2.symm)
+        simp [h1, h2, h3]
+      · simp [h2]
+
+/-- the loop of MultiField.flexible_addsub, key by key -/
+theorem mflexLoop_spec (opf : Fld K → Fld K → Except String (Fld K)) (single : Fld K → Fld K) :
+    ∀ (b res r : List (String × Fld K)), (b.map (·.1)).Nodup → mflexLoop opf single res b = .ok r →
+      ∀ q, match lookupLeaf q res, lookupLeaf q b with
+        | some x, some y => ∃ z, opf x y = .ok z ∧ lookupLeaf q r = some z
+        | some x, none => lookupLeaf q r = some x
+        | none, some y => lookupLeaf q r = some (single y)
+        | none, none => lookupLeaf q r = none := by
+  intro b
+  induction b with
+  | nil =>
+    intro res r _ h q
+    simp only [mflexLoop, Except.ok.injEq] at h
+    subst h
+    cases hq : lookupLeaf q res <;> simp [lookupLeaf]
+  | cons kv t ih =>
+    intro res r hnd h q
+    obtain ⟨k, v⟩ := kv
+    simp only [List.map_cons, List.nodup_cons] at hnd
+    obtain ⟨hkt, hndt⟩ := hnd
+    have hkt' : lookupLeaf k t = none := lookupLeaf_none_of_not_mem k t hkt
+    simp only [mflexLoop] at h
+    cases hf : res.find? (fun kv => kv.1 == k) with
+    | some found =>
+      obtain ⟨k', r0⟩ := found
+      simp only [hf] at h
+      have hlk : lookupLeaf k res = some r0 := by simp [lookupLeaf, hf]
+      cases ho : opf r0 v with
+      | error e => simp only [ho] at h; cases h
+      | ok n =>
+        simp only [ho] at h
+        have := ih _ r hndt h q
+        rw [lookupLeaf_cons]
+        rw [lookupLeaf_replace] at this
+        by_cases hq : k = q
+        · subst hq
+          simp only [if_true, hlk, Option.map_some, hkt'] at this ⊢
+          exact ⟨n, ho, this⟩
+        · simp only [hq, if_false] at this ⊢
+          exact this
+    | none =>
+      simp only [hf] at h
+      have hlk : lookupLeaf k res = none := by simp [lookupLeaf, hf]
+      have := ih _ r hndt h q
+      rw [lookupLeaf_insert k q (single v) res hlk] at this
+      rw [lookupLeaf_cons]
+      by_cases hq : k = q
+      · subst hq
+        simp only [if_true, hlk, hkt'] at this ⊢
+        exact this
+      · simp only [hq, if_false] at this ⊢
+        exact this
+
+end Flex
+
+/-! ### maxima and sums of absolute values (norms) -/
+section Norms
+variable {K : Type} {α : Type}
+
+theorem le_maxOver [LinearOrder K] [Zero K] (l : List α) (f : α → K) : ∀ a ∈ l, f a ≤ maxOver max l f := by
+  induction l with
+  | nil => intro a h; cases h
+  | cons b t ih =>
+    intro a h
+    simp only [maxOver]
+    rcases List.mem_cons.mp h with rfl | h
+    · exact le_max_left _ _
+    · exact le_trans (ih a h) (le_max_right _ _)
+
+theorem maxOver_attained [LinearOrder K] [Zero K] (l : List α) (f : α → K) (hf : ∀ a ∈ l, 0 ≤ f a) (hne : l ≠ []) :
+    ∃ a ∈ l, maxOver max l f = f a := by
+  induction l with
+  | nil => exact absurd rfl hne
+  | cons b t ih =>
+    simp only [maxOver]
+    by_cases ht : t = []
+    · subst ht
+      exact ⟨b, by simp, by simp [maxOver, max_eq_left (hf b (by simp))]⟩
+    · obtain ⟨a, ha, he⟩ := ih (fun a h => hf a (by simp [h])) ht
+      rcases le_total (f b) (maxOver max t f) with h | h
+      · exact ⟨a, by simp [ha], by rw [max_eq_right h, he]⟩
+      · exact ⟨b, by simp, by rw [max_eq_left h]⟩
+
+theorem sumOver_nonneg [Field K] [LinearOrder K] [IsStrictOrderedRing K] (l : List α) (f : α → K)
+    (hf : ∀ a ∈ l, 0 ≤ f a) : 0 ≤ sumOver l f := by
+  induction l with
+  | nil => simp [sumOver]
+  | cons b t ih =>
+    simp only [sumOver]
+    exact add_nonneg (hf b (by simp)) (ih (fun a h => hf a (by simp [h])))
+
+theorem sumOver_le_sumOver [Field K] [LinearOrder K] [IsStrictOrderedRing K] (l : List α) (f g : α → K)
+    (h : ∀ a ∈ l, f a ≤ g a) : sumOver l f ≤ sumOver l g := by
+  induction l with
+  | nil => simp [sumOver]
+  | cons b t ih =>
+    simp only [sumOver]
+    exact add_le_add (h b (by simp)) (ih (fun a ha => h a (by simp [ha])))
+
+end Norms
 
 end NiftyVerif.FieldM
